@@ -63,7 +63,7 @@ Proof.
   { unfold cstep in Hs. destruct (op_enabled cs o); [reflexivity|discriminate]. }
   pose proof (cstep_aop cfg cs o He) as Hq. cbv zeta in Hq. rewrite Hq in Hs. inversion Hs; subst cs' evs. clear Hs Hq.
   set (s' := fst (step isort cfg (cs_s cs) o)).
-  destruct H as [Hinv Hnd Hvis Hearly Hsnap Hsel Htodo Hadd Hc].
+  destruct H as [Hinv Hnd Hvis Hearly Hsnap Hsel Htodo Hadd Hc Hself Hlive Hclock].
   assert (Hinv' : inv s') by (apply (inv_step isort isort_perm), Hinv).
   pose proof (charge_nonneg cfg (cs_s cs) o (cs_cands cs)) as [Hc1 Hc2].
   constructor; cbn [cs_s cs_ph cs_gstart cs_psnap cs_cands cs_ncand cs_sel cs_added1 cs_added2 cs_late cs_dph].
@@ -85,31 +85,54 @@ Proof.
     destruct (is_trim o) eqn:Et.
     + (* ForceTrim: only when idle *)
       destruct o; try discriminate Et; [discriminate He|]. cbn in He. destruct (cs_ph cs); discriminate.
-    + destruct (aop_sums cfg (cs_s cs) o (cs_cands cs) (cs_sel cs) Hinv Et Hnd) as [S1 S2]. fold s' in S1, S2.
+    + destruct (aop_sums cfg (cs_s cs) o (cs_gstart cs) (cs_cands cs) (cs_sel cs) Hinv Et Hnd) as [S1 S2]. fold s' in S1, S2.
       split; lia.
+  - (* a selected connection's peer stays out of grace while it is the same entry *)
+    intros p c e' Hin He' Hp Hl. destruct (in_relive _ _ _ He') as [e [Hin' ->]]. cbn [relive_e ce_p ce_live] in Hp, Hl.
+    apply andb_true_iff in Hl. destruct Hl as [Hl Ht']. unfold tracked in Ht'.
+    destruct (Hself p c e Hin Hin' Hp Hl) as [Htmp Hf]. pose proof (Hlive e Hin' Hl) as Ht. rewrite Hp in Ht.
+    destruct (is_trim o) eqn:Et.
+    + destruct o; try discriminate Et; [discriminate He|]. unfold s'. cbn [step fst]. split; assumption.
+    + rewrite Hp in Ht'.
+      pose proof (step_first_cases cfg (cs_s cs) o p Hinv Et) as Hfc. cbv zeta in Hfc. fold s' in Hfc.
+      destruct (Hfc Ht Ht') as [[E1 E2]|[x [_ [E _]]]].
+      * rewrite E1, E2. split; assumption.
+      * rewrite E in Htmp. discriminate.
+  - intros e' He' Hl. destruct (in_relive _ _ _ He') as [e [_ ->]]. cbn [relive_e ce_p ce_live] in *.
+    apply andb_true_iff in Hl. exact (proj2 Hl).
+  - intros Hi. specialize (Hclock Hi). destruct (is_trim o) eqn:Et.
+    + destruct o; try discriminate Et; [discriminate He|]. unfold s'. cbn [step fst]. exact Hclock.
+    + pose proof (step_now cfg (cs_s cs) o Et) as Hn. fold s' in Hn. lia.
 Qed.
 
 Ltac csimpl := cbn [cs_s cs_ph cs_gstart cs_psnap cs_cands cs_ncand cs_sel cs_added1 cs_added2 cs_late cs_dph
                        with_s with_ph with_dph] in *.
 
 (* ---- steps that do not touch connections, tracked-ness or protection --------------------------- *)
-Lemma sums_ext : forall s s' sel l, (forall q, conns_of s' q = conns_of s q) ->
-  dsum s' sel l = dsum s sel l /\ usum s' l = usum s l.
+Lemma sums_ext : forall s s' g sel l, (forall q, conns_of s' q = conns_of s q) ->
+  (forall q, p_first (peer_at s' q) = p_first (peer_at s q)) ->
+  dsum s' g sel l = dsum s g sel l /\ usum s' g l = usum s g l.
 Proof.
-  intros s s' sel l H. unfold dsum, usum. split; f_equal; apply map_ext; intros e.
-  - unfold dterm, rem_m. rewrite H. reflexivity.
-  - unfold uterm. rewrite H. reflexivity.
+  intros s s' g sel l H Hf. unfold dsum, usum. split; f_equal; apply map_ext; intros e.
+  - unfold dterm, rem_m, incl. rewrite H, Hf. reflexivity.
+  - unfold uterm, incl. rewrite H, Hf. reflexivity.
 Qed.
 
 Lemma cinv_state_change : forall cfg cs s' d, CInv cfg cs -> inv s' -> prot s' = prot (cs_s cs) ->
   (forall q, conns_of s' q = conns_of (cs_s cs) q) ->
+  (forall q, p_first (peer_at s' q) = p_first (peer_at (cs_s cs) q) /\ p_temp (peer_at s' q) = p_temp (peer_at (cs_s cs) q)
+             /\ p_tracked (peer_at s' q) = p_tracked (peer_at (cs_s cs) q)) ->
+  now (cs_s cs) <= now s' ->
   CInv cfg (with_dph (with_s cs s') d).
 Proof.
-  intros cfg cs s' d [Hinv Hnd Hvis Hearly Hsnap Hsel Htodo Hadd Hc] Hinv' Hp Hq.
+  intros cfg cs s' d [Hinv Hnd Hvis Hearly Hsnap Hsel Htodo Hadd Hc Hself Hlive Hclock] Hinv' Hp Hq Hf Hn.
   constructor; unfold cbound in *; csimpl; try assumption.
   - intros vis Hph. destruct (Hvis vis Hph) as [H1 H2]. split; [exact H1|congruence].
-  - intros b Hb. destruct (sums_ext (cs_s cs) s' (cs_sel cs) (cs_cands cs) Hq) as [E1 E2]. rewrite E1, E2.
-    apply Hc. exact Hb.
+  - intros b Hb. destruct (sums_ext (cs_s cs) s' (cs_gstart cs) (cs_sel cs) (cs_cands cs) Hq (fun q => proj1 (Hf q))) as [E1 E2].
+    rewrite E1, E2. apply Hc. exact Hb.
+  - intros p c e Hin He Hpe Hl. destruct (Hf p) as [F1 [F2 _]]. rewrite F1, F2. exact (Hself p c e Hin He Hpe Hl).
+  - intros e He Hl. rewrite (proj2 (proj2 (Hf (ce_p e)))). exact (Hlive e He Hl).
+  - intros Hi. specialize (Hclock Hi). lia.
 Qed.
 
 Lemma decay_peer_ok : forall vs pi, peer_ok pi -> p_tracked pi = true -> peer_ok (decay_peer vs pi).
@@ -122,12 +145,16 @@ Qed.
 Lemma decay_peer_conns : forall vs pi, p_conns (decay_peer vs pi) = p_conns pi.
 Proof. intros. unfold decay_peer. destruct (decay_tags vs (p_dec pi)). reflexivity. Qed.
 
+Lemma decay_peer_keeps : forall vs pi, p_first (decay_peer vs pi) = p_first pi /\ p_temp (decay_peer vs pi) = p_temp pi
+  /\ p_tracked (decay_peer vs pi) = p_tracked pi.
+Proof. intros. unfold decay_peer. destruct (decay_tags vs (p_dec pi)). repeat split. Qed.
+
 Lemma cinv_clock_tick : forall cfg cs a cs' evs, CInv cfg cs ->
   (a = AClock \/ (exists p, a = ATickPeer p) \/ a = ATickEnd) ->
   cstep cfg cs a = Some (cs', evs) -> CInv cfg cs'.
 Proof.
   intros cfg cs a cs' evs H Ha Hs. pose proof (ci_inv _ _ H) as Hinv. destruct Ha as [->|[[p ->]| ->]]; cbn [cstep] in Hs.
-  - inversion Hs; subst. apply cinv_state_change; try assumption; try reflexivity.
+  - inversion Hs; subst. apply cinv_state_change; try assumption; try reflexivity; try (intros; repeat split); cbn; lia.
   - destruct (cs_dph cs) as [|vs t vis]; [discriminate|]. destruct (memn p vis); [discriminate|].
     inversion Hs; subst. clear Hs. unfold tracked. destruct (p_tracked (peer_at (cs_s cs) p)) eqn:Etr.
     + apply cinv_state_change; try assumption; try reflexivity.
@@ -135,16 +162,18 @@ Proof.
         rewrite decay_peer_conns. reflexivity.
       * intros q. unfold conns_of. rewrite peer_at_set_peer. destruct (Nat.eqb p q) eqn:E; [|reflexivity].
         apply Nat.eqb_eq in E. subst q. apply decay_peer_conns.
-    + apply cinv_state_change; try assumption; reflexivity.
+      * intros q. rewrite peer_at_set_peer. destruct (Nat.eqb p q) eqn:E; [|repeat split].
+        apply Nat.eqb_eq in E. subst q. apply decay_peer_keeps.
+    + apply cinv_state_change; try assumption; try reflexivity; try (intros; repeat split); lia.
   - destruct (cs_dph cs) as [|vs t vis]; [discriminate|]. inversion Hs; subst.
-    apply cinv_state_change; try assumption; try reflexivity.
+    apply cinv_state_change; try assumption; try reflexivity; try (intros; repeat split); cbn; lia.
 Qed.
 
 (* ---- the trim's own steps ------------------------------------------------------------------------ *)
-Lemma cinv_fresh : forall cfg s ph g d, inv s -> (ph = TIdle \/ ph = TSnap []) ->
+Lemma cinv_fresh : forall cfg s ph g d, inv s -> (ph = TIdle \/ ph = TSnap []) -> g <= now s - c_grace cfg ->
   CInv cfg (mkCS s ph g (prot s) [] 0 [] 0 0 [] d).
 Proof.
-  intros cfg s ph g d Hinv Hph. constructor; csimpl.
+  intros cfg s ph g d Hinv Hph Hg. constructor; csimpl.
   - exact Hinv.
   - constructor.
   - intros vis _. split; [intros e []|reflexivity].
@@ -155,6 +184,9 @@ Proof.
   - lia.
   - intros b Hb. unfold dsum, usum. cbn [map zsum]. unfold cbound in Hb. csimpl.
     destruct Hph as [-> | ->]; inversion Hb; subst; lia.
+  - intros p c e [].
+  - intros e [].
+  - intros _. exact Hg.
 Qed.
 
 Lemma cinv_begin : forall cfg cs cs' evs, CInv cfg cs -> cstep cfg cs ABegin = Some (cs', evs) -> CInv cfg cs'.
@@ -162,12 +194,12 @@ Proof.
   intros cfg cs cs' evs H Hs. pose proof (ci_inv _ _ H) as Hinv. cbn [cstep] in Hs.
   destruct (negb (is_idle (cs_ph cs))); [discriminate|].
   destruct ((c_low cfg =? 0) || (c_high cfg =? 0) || (count (cs_s cs) <=? c_low cfg)); inversion Hs; subst; clear Hs;
-    apply cinv_fresh; auto.
+    apply cinv_fresh; auto; lia.
 Qed.
 
-Lemma usum_app : forall s a b, usum s (a ++ b) = usum s a + usum s b.
+Lemma usum_app : forall s g a b, usum s g (a ++ b) = usum s g a + usum s g b.
 Proof. intros. unfold usum. rewrite map_app, zsum_app. reflexivity. Qed.
-Lemma dsum_app : forall s sel a b, dsum s sel (a ++ b) = dsum s sel a + dsum s sel b.
+Lemma dsum_app : forall s g sel a b, dsum s g sel (a ++ b) = dsum s g sel a + dsum s g sel b.
 Proof. intros. unfold dsum. rewrite map_app, zsum_app. reflexivity. Qed.
 
 Lemma NoDup_app_cons_end : forall (l : list nat) x, NoDup l -> ~ In x l -> NoDup (l ++ [x]).
@@ -180,7 +212,7 @@ Qed.
 
 Lemma cinv_snap : forall cfg cs p cs' evs, CInv cfg cs -> cstep cfg cs (ASnap p) = Some (cs', evs) -> CInv cfg cs'.
 Proof.
-  intros cfg cs p cs' evs H Hs. destruct H as [Hinv Hnd Hvis Hearly Hsnap Hsel Htodo Hadd Hc]. cbn [cstep] in Hs.
+  intros cfg cs p cs' evs H Hs. destruct H as [Hinv Hnd Hvis Hearly Hsnap Hsel Htodo Hadd Hc Hself Hlive Hclock]. cbn [cstep] in Hs.
   destruct (cs_ph cs) as [|vis| | |] eqn:Eph; try discriminate. destruct (memn p vis) eqn:Em; [discriminate|].
   destruct (Hvis vis eq_refl) as [Hv1 Hv2]. destruct (Hearly eq_refl) as [He1 He2].
   assert (Hnp : ~ In p vis) by (intros Hin; apply memn_In in Hin; congruence).
@@ -202,7 +234,10 @@ Proof.
     + exact Hadd.
     + intros b Hb. unfold cbound in *. cbn [cs_ph cs_ncand] in *. rewrite Eph in Hc. inversion Hb; subst.
       destruct (Hc _ eq_refl) as [HD HU]. rewrite dsum_app, usum_app. unfold dsum at 2, usum at 2. cbn [map zsum].
-      unfold dterm, uterm. cbn. fold (conns_of (cs_s cs) p). lia.
+      unfold dterm, uterm, incl. cbn [ce_live ce_done ce_p andb negb]. rewrite E3. fold (conns_of (cs_s cs) p). lia.
+    + intros q c e Hin. rewrite He1 in Hin. destruct Hin.
+    + intros e Hin Hl. apply in_app_or in Hin. destruct Hin as [Hin|[<-|[]]]; [exact (Hlive e Hin Hl)|exact E1].
+    + exact Hclock.
   - constructor; csimpl; try assumption.
     + intros vis' Hph. inversion Hph; subst. split; [|exact Hv2]. intros e Hin. right. apply Hv1, Hin.
     + intros; discriminate.
@@ -212,16 +247,19 @@ Qed.
 Lemma cinv_with_ph : forall cfg cs ph, CInv cfg cs ->
   (forall vis, ph <> TSnap vis) ->
   (early ph = true -> early (cs_ph cs) = true) ->
+  (is_idle ph = false -> is_idle (cs_ph cs) = false) ->
   (forall todo tg, ph = TSel todo tg ->
      forall e, In e (cs_cands cs) -> ce_done e = false -> In (ce_p e) todo) ->
   (forall b, cbound cfg (with_ph cs ph) = Some b ->
-     dsum (cs_s cs) (cs_sel cs) (cs_cands cs) <= cs_added1 cs /\ usum (cs_s cs) (cs_cands cs) <= b + cs_added2 cs) ->
+     dsum (cs_s cs) (cs_gstart cs) (cs_sel cs) (cs_cands cs) <= cs_added1 cs
+     /\ usum (cs_s cs) (cs_gstart cs) (cs_cands cs) <= b + cs_added2 cs) ->
   CInv cfg (with_ph cs ph).
 Proof.
-  intros cfg cs ph [Hinv Hnd Hvis Hearly Hsnap Hsel Htodo Hadd Hc] H1 H2 H3 H4.
+  intros cfg cs ph [Hinv Hnd Hvis Hearly Hsnap Hsel Htodo Hadd Hc Hself Hlive Hclock] H1 H2 H2' H3 H4.
   constructor; csimpl; try assumption.
   - intros vis E. exfalso. exact (H1 vis E).
   - intros E. apply Hearly, H2, E.
+  - intros E. apply Hclock, H2', E.
 Qed.
 
 Lemma cinv_snapend : forall cfg cs cs' evs, CInv cfg cs -> cstep cfg cs ASnapEnd = Some (cs', evs) -> CInv cfg cs'.
@@ -229,9 +267,8 @@ Proof.
   intros cfg cs cs' evs H Hs. cbn [cstep] in Hs. destruct (cs_ph cs) as [|vis| | |] eqn:Eph; try discriminate.
   destruct (negb (sweep_done _ _ _)); [discriminate|].
   destruct (cs_ncand cs <? c_low cfg); inversion Hs; subst; clear Hs; apply cinv_with_ph; try exact H;
-    try (intros; discriminate).
-  - intros _. rewrite Eph. reflexivity.
-  - intros b Hb. apply (ci_c _ _ H). unfold cbound in *. csimpl. rewrite Eph. exact Hb.
+    try (intros; discriminate); try (intros _; rewrite Eph; reflexivity).
+  intros b Hb. apply (ci_c _ _ H). unfold cbound in *. csimpl. rewrite Eph. exact Hb.
 Qed.
 
 Lemma cinv_sortend : forall cfg cs perm cs' evs, CInv cfg cs ->
@@ -239,7 +276,7 @@ Lemma cinv_sortend : forall cfg cs perm cs' evs, CInv cfg cs ->
 Proof.
   intros cfg cs perm cs' evs H Hs. cbn [cstep] in Hs. destruct (cs_ph cs) eqn:Eph; try discriminate.
   destruct (forallb _ (cs_cands cs)) eqn:Ef; [|discriminate]. inversion Hs; subst; clear Hs.
-  apply cinv_with_ph; try exact H; try (intros; discriminate).
+  apply cinv_with_ph; try exact H; try (intros; discriminate); try (intros _; rewrite Eph; reflexivity).
   - intros todo tg E e Hin _. inversion E; subst. rewrite forallb_forall in Ef. apply memn_In, Ef, Hin.
   - intros b Hb. unfold cbound in Hb. csimpl. inversion Hb; subst.
     destruct (ci_c _ _ H (cs_ncand cs)) as [HD HU]; [unfold cbound; rewrite Eph; reflexivity|]. split; lia.
@@ -273,17 +310,18 @@ Proof. intros. apply find_some. assumption. Qed.
 
 (* marking done: the not-yet-selected sum loses the entry's term; the
    selected sum, taken against the enlarged selection, does not grow *)
-Lemma usum_mark_done : forall s p l e, In e l -> ce_p e = p ->
-  usum s (mark_done p l) <= usum s l - uterm s e.
+Lemma usum_mark_done : forall s g p l e, In e l -> ce_p e = p ->
+  usum s g (mark_done p l) <= usum s g l - uterm s g e.
 Proof.
-  intros s p l e Hin Hp. unfold usum, mark_done. rewrite map_map.
-  rewrite (zsum_split (fun x => Nat.eqb (ce_p x) p) (uterm s) l).
-  assert (H1 : uterm s e <= zsum (map (fun x => if Nat.eqb (ce_p x) p then uterm s x else 0) l)).
-  { pose proof (zsum_member_le (fun x => if Nat.eqb (ce_p x) p then uterm s x else 0) l e) as Hm. cbv beta in Hm.
+  intros s g p l e Hin Hp. unfold usum, mark_done. rewrite map_map.
+  rewrite (zsum_split (fun x => Nat.eqb (ce_p x) p) (uterm s g) l).
+  assert (H1 : uterm s g e <= zsum (map (fun x => if Nat.eqb (ce_p x) p then uterm s g x else 0) l)).
+  { pose proof (zsum_member_le (fun x => if Nat.eqb (ce_p x) p then uterm s g x else 0) l e) as Hm. cbv beta in Hm.
     rewrite Hp, Nat.eqb_refl in Hm. apply Hm; [|exact Hin]. intros x _. destruct (Nat.eqb (ce_p x) p); [apply uterm_nonneg|lia]. }
-  assert (H2 : zsum (map (fun x => uterm s (if Nat.eqb (ce_p x) p then mkCE (ce_p x) (ce_live x) true (ce_first x) else x)) l)
-               = zsum (map (fun x => if Nat.eqb (ce_p x) p then 0 else uterm s x) l)).
-  { f_equal. apply map_ext. intros x. destruct (Nat.eqb (ce_p x) p); [|reflexivity]. unfold uterm. cbn. rewrite andb_false_r. reflexivity. }
+  assert (H2 : zsum (map (fun x => uterm s g (if Nat.eqb (ce_p x) p then mkCE (ce_p x) (ce_live x) true (ce_first x) else x)) l)
+               = zsum (map (fun x => if Nat.eqb (ce_p x) p then 0 else uterm s g x) l)).
+  { f_equal. apply map_ext. intros x. destruct (Nat.eqb (ce_p x) p); [|reflexivity]. unfold uterm. cbn [ce_live ce_done negb].
+    rewrite andb_false_r. reflexivity. }
   rewrite H2. lia.
 Qed.
 
@@ -294,21 +332,26 @@ Lemma cinv_update : forall cfg cs s' ph' cands' sel',
   (forall todo tg, ph' = TSel todo tg -> forall e', In e' cands' -> ce_done e' = false -> In (ce_p e') todo) ->
   (forall b, cbound cfg (mkCS s' ph' (cs_gstart cs) (cs_psnap cs) cands' (cs_ncand cs) sel' (cs_added1 cs)
                               (cs_added2 cs) (cs_late cs) (cs_dph cs)) = Some b ->
-     dsum s' sel' cands' <= cs_added1 cs /\ usum s' cands' <= b + cs_added2 cs) ->
+     dsum s' (cs_gstart cs) sel' cands' <= cs_added1 cs /\ usum s' (cs_gstart cs) cands' <= b + cs_added2 cs) ->
+  (forall p c e', In (p, c) sel' -> In e' cands' -> ce_p e' = p -> ce_live e' = true ->
+     p_temp (peer_at s' p) = false /\ p_first (peer_at s' p) <= cs_gstart cs) ->
+  (forall e', In e' cands' -> ce_live e' = true -> p_tracked (peer_at s' (ce_p e')) = true) ->
+  now s' = now (cs_s cs) -> is_idle (cs_ph cs) = false ->
   CInv cfg (mkCS s' ph' (cs_gstart cs) (cs_psnap cs) cands' (cs_ncand cs) sel' (cs_added1 cs) (cs_added2 cs)
                  (cs_late cs) (cs_dph cs)).
 Proof.
-  intros cfg cs s' ph' cands' sel' H Hinv' Hnd' Hns Hne Hc' Hsel' Htodo' Hb'.
+  intros cfg cs s' ph' cands' sel' H Hinv' Hnd' Hns Hne Hc' Hsel' Htodo' Hb' Hself' Hlive' Hnow Hidle.
   constructor; csimpl; try assumption.
   - intros vis E. exfalso. exact (Hns vis E).
   - intros E. rewrite Hne in E. discriminate.
   - intros e' Hin. destruct (Hc' e' Hin) as [e [A [B C]]]. rewrite B, C. exact (ci_snap _ _ H e A).
   - exact (ci_added _ _ H).
+  - intros _. rewrite Hnow. exact (ci_clock _ _ H Hidle).
 Qed.
 
-Lemma usum_all_done : forall s l, (forall e, In e l -> ce_done e = true) -> usum s l = 0.
+Lemma usum_all_done : forall s g l, (forall e, In e l -> ce_done e = true) -> usum s g l = 0.
 Proof.
-  intros s l H. unfold usum. apply zsum_map_zero. intros e He. unfold uterm. rewrite (H e He), andb_false_r. reflexivity.
+  intros s g l H. unfold usum. apply zsum_map_zero. intros e He. unfold uterm. rewrite (H e He). cbn [negb]. rewrite andb_false_r. reflexivity.
 Qed.
 
 Lemma rem_m_mono : forall s sel sel' q, (forall x, In x sel -> In x sel') -> rem_m s sel' q <= rem_m s sel q.
@@ -334,112 +377,142 @@ Qed.
 Lemma cinv_select : forall cfg cs cs' evs, 0 <= c_low cfg -> CInv cfg cs ->
   cstep cfg cs ASelect = Some (cs', evs) -> CInv cfg cs'.
 Proof.
-  intros cfg cs cs' evs Hlow H Hs. cbn [cstep] in Hs.
+  intros cfg cs cs' evs Hlow H Hs. cbn [cstep] in Hs. unfold select_step in Hs.
   destruct (cs_ph cs) as [| | |todo tg|] eqn:Eph; try discriminate.
+  assert (Hidle : is_idle (cs_ph cs) = false) by (rewrite Eph; reflexivity).
   pose proof (ci_inv _ _ H) as Hinv. pose proof (ci_nodup _ _ H) as Hnd. pose proof (ci_added _ _ H) as Hadd.
+  pose proof (ci_self _ _ H) as Hself. pose proof (ci_live _ _ H) as Hlive.
   destruct (ci_c _ _ H (tg + c_low cfg)) as [HD HU]; [unfold cbound; rewrite Eph; reflexivity|].
   pose proof (ci_todo _ _ H todo tg Eph) as Htodo.
   destruct todo as [|p r].
-  - (* every candidate was processed *)
-    inversion Hs; subst; clear Hs. apply cinv_with_ph; try exact H; try (intros; discriminate).
+  - inversion Hs; subst; clear Hs. apply cinv_with_ph; try exact H; try (intros; discriminate); try (intros _; exact Hidle).
     intros b Hb. unfold cbound in Hb. csimpl. inversion Hb; subst. split; [exact HD|].
     rewrite usum_all_done; [lia|]. intros e He. destruct (ce_done e) eqn:Ed; [reflexivity|]. destruct (Htodo e He Ed).
   - destruct (tg <=? 0) eqn:Etg.
-    + (* target reached *)
-      inversion Hs; subst; clear Hs. apply Z.leb_le in Etg.
-      apply cinv_with_ph; try exact H; try (intros; discriminate).
+    + inversion Hs; subst; clear Hs. apply Z.leb_le in Etg.
+      apply cinv_with_ph; try exact H; try (intros; discriminate); try (intros _; exact Hidle).
       intros b Hb. unfold cbound in Hb. csimpl. inversion Hb; subst. split; [exact HD|lia].
     + destruct (find (fun e => Nat.eqb (ce_p e) p && negb (ce_done e)) (cs_cands cs)) as [e|] eqn:Ef.
-      * destruct (find_some_in _ _ _ Ef) as [Hin Hfe]. apply andb_true_iff in Hfe. destruct Hfe as [Hpe Hde].
-        apply Nat.eqb_eq in Hpe. apply negb_true_iff in Hde.
-        assert (Hmk : forall e', In e' (mark_done p (cs_cands cs)) ->
-                      exists e0, In e0 (cs_cands cs) /\ ce_p e' = ce_p e0 /\ ce_first e' = ce_first e0).
-        { intros e' He'. destruct (in_mark_done _ _ _ He') as [e0 [A ->]]. exists e0.
-          destruct (mark_e_fields p e0) as [B [C _]]. auto. }
-        assert (Htd : forall e', In e' (mark_done p (cs_cands cs)) -> ce_done e' = false -> In (ce_p e') r).
-        { intros e' He' Hd. destruct (in_mark_done _ _ _ He') as [e0 [A ->]].
-          destruct (mark_e_fields p e0) as [B [_ [_ D]]]. destruct (D Hd) as [D1 D2]. rewrite B.
-          destruct (Htodo e0 A D1) as [E|E]; [congruence|exact E]. }
-        destruct (ce_live e) eqn:Elive; cbn [negb] in Hs.
-        -- destruct (is_nil (p_conns (peer_at (cs_s cs) p)) && p_temp (peer_at (cs_s cs) p)) eqn:Epr;
-             inversion Hs; subst cs' evs; clear Hs.
-           ++ (* a temporary entry is pruned *)
-              apply andb_true_iff in Epr. destruct Epr as [Enil _].
-              set (s' := set_peer (cs_s cs) p nopeer).
-              assert (Hat : forall q, q <> p -> peer_at s' q = peer_at (cs_s cs) q).
-              { intros q Hq. unfold s'. rewrite peer_at_set_peer. destruct (Nat.eqb p q) eqn:E; [|reflexivity].
-                apply Nat.eqb_eq in E. congruence. }
-              assert (Htp : tracked s' p = false) by (unfold tracked, s'; rewrite peer_at_set_peer, Nat.eqb_refl; reflexivity).
-              apply cinv_update; try exact H; try (intros; discriminate); try reflexivity.
-              ** apply inv_set_peer; [exact Hinv|apply nopeer_ok|]. destruct (p_conns (peer_at (cs_s cs) p)); [reflexivity|discriminate].
-              ** rewrite relive_pids, mark_done_pids. exact Hnd.
-              ** intros e' He'. destruct (in_relive _ _ _ He') as [e1 [A ->]]. exact (Hmk e1 A).
-              ** intros q c Hqc. destruct (ci_sel _ _ H q c Hqc) as [e0 [A B]].
-                 exists (relive_e s' (mark_e p e0)). split.
-                 --- unfold relive, mark_done. rewrite map_map. apply in_map_iff. exists e0. split; [reflexivity|exact A].
-                 --- cbn. rewrite (proj1 (mark_e_fields p e0)). exact B.
-              ** intros todo' tg' E e' He' Hd. inversion E; subst. destruct (in_relive _ _ _ He') as [e1 [A ->]].
-                 exact (Htd e1 A Hd).
-              ** intros b Hb. unfold cbound in Hb. csimpl. inversion Hb as [Hb'].
-                 assert (HU' : usum s' (relive s' (mark_done p (cs_cands cs))) <= usum (cs_s cs) (cs_cands cs)).
-                 { unfold usum, relive, mark_done. rewrite !map_map. apply zsum_map_le. intros e0 _. unfold uterm. cbn.
-                   destruct (Nat.eqb (ce_p e0) p) eqn:E; cbn.
-                   - apply Nat.eqb_eq in E. rewrite E, Htp, andb_false_r. cbn. destruct (_ && _); [apply zlen_nonneg|lia].
-                   - apply Nat.eqb_neq in E. unfold tracked, conns_of. rewrite (Hat _ E).
-                     destruct (ce_live e0), (ce_done e0), (p_tracked (peer_at (cs_s cs) (ce_p e0))); cbn; try lia; apply zlen_nonneg. }
-                 assert (HD' : dsum s' (cs_sel cs) (relive s' (mark_done p (cs_cands cs))) <= dsum (cs_s cs) (cs_sel cs) (cs_cands cs)).
-                 { unfold dsum, relive, mark_done. rewrite !map_map. apply zsum_map_le. intros e0 _. unfold dterm. cbn.
-                   destruct (Nat.eqb (ce_p e0) p) eqn:E; cbn.
-                   - apply Nat.eqb_eq in E. rewrite E, Htp, andb_false_r. cbn. destruct (_ && _); [apply zlen_nonneg|lia].
-                   - apply Nat.eqb_neq in E. unfold tracked, rem_m, conns_of. rewrite (Hat _ E).
-                     destruct (ce_live e0), (ce_done e0), (p_tracked (peer_at (cs_s cs) (ce_p e0))); cbn; try lia; apply zlen_nonneg. }
-                 split; lia.
-           ++ (* its live connections are selected *)
-              apply cinv_update; try exact H; try (intros; discriminate); try reflexivity; try exact Hinv.
-              ** rewrite mark_done_pids. exact Hnd.
-              ** exact Hmk.
-              ** intros q c Hqc. apply in_app_or in Hqc. destruct Hqc as [Hqc|Hqc].
-                 --- destruct (ci_sel _ _ H q c Hqc) as [e0 [A B]]. exists (mark_e p e0). split.
-                     +++ unfold mark_done. apply in_map_iff. exists e0. split; [reflexivity|exact A].
-                     +++ rewrite (proj1 (mark_e_fields p e0)). exact B.
-                 --- apply in_map_iff in Hqc. destruct Hqc as [c' [E _]]. inversion E; subst. exists (mark_e (ce_p e) e). split.
-                     +++ unfold mark_done. apply in_map_iff. exists e. split; [reflexivity|exact Hin].
-                     +++ apply (proj1 (mark_e_fields (ce_p e) e)).
-              ** intros todo' tg' E e' He' Hd. inversion E; subst. exact (Htd e' He' Hd).
-              ** intros b Hb. unfold cbound in Hb. csimpl. inversion Hb; subst.
-                 pose proof (usum_mark_done (cs_s cs) (ce_p e) (cs_cands cs) e Hin eq_refl) as HU'.
-                 assert (Hut : uterm (cs_s cs) e = zlen (p_conns (peer_at (cs_s cs) (ce_p e))))
-                   by (unfold uterm; rewrite Elive, Hde; reflexivity).
-                 assert (HD' : dsum (cs_s cs) (cs_sel cs ++ map (pair (ce_p e)) (p_conns (peer_at (cs_s cs) (ce_p e))))
-                                    (mark_done (ce_p e) (cs_cands cs)) <= dsum (cs_s cs) (cs_sel cs) (cs_cands cs)).
-                 { unfold dsum, mark_done. rewrite map_map. apply zsum_map_le. intros e0 _. unfold dterm.
-                   destruct (Nat.eqb (ce_p e0) (ce_p e)) eqn:E; cbn.
-                   - apply Nat.eqb_eq in E. rewrite E. fold (conns_of (cs_s cs) (ce_p e)). rewrite rem_m_self.
-                     destruct (ce_live e0), (ce_done e0); cbn; try lia; unfold rem_m; apply zlen_nonneg.
-                   - destruct (ce_live e0 && ce_done e0); [|lia]. apply rem_m_mono. intros x Hx. apply in_or_app. left. exact Hx. }
-                 split; lia.
-        -- (* a stale entry: its object left the map *)
-           inversion Hs; subst cs' evs; clear Hs.
-           apply cinv_update; try exact H; try (intros; discriminate); try reflexivity; try exact Hinv.
-           ++ rewrite mark_done_pids. exact Hnd.
-           ++ exact Hmk.
-           ++ intros q c Hqc. destruct (ci_sel _ _ H q c Hqc) as [e0 [A B]]. exists (mark_e p e0). split.
-              ** unfold mark_done. apply in_map_iff. exists e0. split; [reflexivity|exact A].
-              ** rewrite (proj1 (mark_e_fields p e0)). exact B.
-           ++ intros todo' tg' E e' He' Hd. inversion E; subst. exact (Htd e' He' Hd).
-           ++ intros b Hb. unfold cbound in Hb. csimpl. inversion Hb; subst.
-              pose proof (usum_mark_done (cs_s cs) (ce_p e) (cs_cands cs) e Hin eq_refl) as HU'.
-              pose proof (uterm_nonneg (cs_s cs) e).
-              assert (HD' : dsum (cs_s cs) (cs_sel cs) (mark_done (ce_p e) (cs_cands cs)) <= dsum (cs_s cs) (cs_sel cs) (cs_cands cs)).
-              { unfold dsum, mark_done. rewrite map_map. apply zsum_map_le. intros e0 He0. unfold dterm.
-                destruct (Nat.eqb (ce_p e0) (ce_p e)) eqn:E; cbn; [|lia].
-                apply Nat.eqb_eq in E. rewrite (nodup_pid_eq _ e0 e Hnd He0 Hin E), Elive. cbn. lia. }
-              split; lia.
-      * (* nothing left to do for this peer id *)
-        inversion Hs; subst; clear Hs. apply cinv_with_ph; try exact H; try (intros; discriminate).
-        -- intros todo' tg' E e He Hd. inversion E; subst. destruct (Htodo e He Hd) as [E2|E2]; [|exact E2].
-           pose proof (find_none _ _ Ef e He) as Hn. cbv beta in Hn. rewrite <- E2, Nat.eqb_refl, Hd in Hn. discriminate.
-        -- intros b Hb. unfold cbound in Hb. csimpl. inversion Hb; subst. split; [exact HD|exact HU].
+      2:{ inversion Hs; subst; clear Hs. apply cinv_with_ph; try exact H; try (intros; discriminate); try (intros _; exact Hidle).
+          - intros todo' tg' E e He Hd. inversion E; subst. destruct (Htodo e He Hd) as [E2|E2]; [|exact E2].
+            pose proof (find_none _ _ Ef e He) as Hn. cbv beta in Hn. rewrite <- E2, Nat.eqb_refl, Hd in Hn. discriminate.
+          - intros b Hb. unfold cbound in Hb. csimpl. inversion Hb; subst. split; [exact HD|exact HU]. }
+      destruct (find_some_in _ _ _ Ef) as [Hin Hfe]. apply andb_true_iff in Hfe. destruct Hfe as [Hpe Hde].
+      apply Nat.eqb_eq in Hpe. apply negb_true_iff in Hde.
+      assert (Hmk : forall e', In e' (mark_done p (cs_cands cs)) ->
+                    exists e0, In e0 (cs_cands cs) /\ ce_p e' = ce_p e0 /\ ce_first e' = ce_first e0).
+      { intros e' He'. destruct (in_mark_done _ _ _ He') as [e0 [A ->]]. exists e0.
+        destruct (mark_e_fields p e0) as [B [C _]]. auto. }
+      assert (Htd : forall e', In e' (mark_done p (cs_cands cs)) -> ce_done e' = false -> In (ce_p e') r).
+      { intros e' He' Hd. destruct (in_mark_done _ _ _ He') as [e0 [A ->]].
+        destruct (mark_e_fields p e0) as [B [_ [_ D]]]. destruct (D Hd) as [D1 D2]. rewrite B.
+        destruct (Htodo e0 A D1) as [E|E]; [congruence|exact E]. }
+      assert (Hselm : forall q c, In (q, c) (cs_sel cs) -> exists e', In e' (mark_done p (cs_cands cs)) /\ ce_p e' = q).
+      { intros q c Hqc. destruct (ci_sel _ _ H q c Hqc) as [e0 [A B]]. exists (mark_e p e0). split.
+        - unfold mark_done. apply in_map_iff. exists e0. split; [reflexivity|exact A].
+        - rewrite (proj1 (mark_e_fields p e0)). exact B. }
+      assert (Hlivem : forall e', In e' (mark_done p (cs_cands cs)) -> ce_live e' = true ->
+                       p_tracked (peer_at (cs_s cs) (ce_p e')) = true).
+      { intros e' He' Hl. destruct (in_mark_done _ _ _ He') as [e0 [A ->]].
+        destruct (mark_e_fields p e0) as [B [_ [C _]]]. rewrite B. rewrite C in Hl. exact (Hlive e0 A Hl). }
+      assert (Hselfm : forall q c e', In (q, c) (cs_sel cs) -> In e' (mark_done p (cs_cands cs)) -> ce_p e' = q -> ce_live e' = true ->
+                       p_temp (peer_at (cs_s cs) q) = false /\ p_first (peer_at (cs_s cs) q) <= cs_gstart cs).
+      { intros q c e' Hqc He' Hq Hl. destruct (in_mark_done _ _ _ He') as [e0 [A ->]].
+        destruct (mark_e_fields p e0) as [B [_ [C _]]]. rewrite B in Hq. rewrite C in Hl. exact (Hself q c e0 Hqc A Hq Hl). }
+      (* marking the entry done without selecting anything (stale or skipped) *)
+      assert (Hnosel : (ce_live e = false \/ incl (cs_s cs) (cs_gstart cs) p = false) ->
+                CInv cfg (mkCS (cs_s cs) (TSel r tg) (cs_gstart cs) (cs_psnap cs) (mark_done p (cs_cands cs)) (cs_ncand cs)
+                               (cs_sel cs) (cs_added1 cs) (cs_added2 cs) (cs_late cs) (cs_dph cs))).
+      { intros Hz. apply cinv_update; try exact H; try (intros; discriminate); try reflexivity; try assumption.
+        - rewrite mark_done_pids. exact Hnd.
+        - intros todo' tg' E e' He' Hd. inversion E; subst. exact (Htd e' He' Hd).
+        - intros b Hb. unfold cbound in Hb. csimpl. inversion Hb as [Hb'].
+          pose proof (usum_mark_done (cs_s cs) (cs_gstart cs) p (cs_cands cs) e Hin Hpe) as HU'.
+          pose proof (uterm_nonneg (cs_s cs) (cs_gstart cs) e).
+          assert (HD' : dsum (cs_s cs) (cs_gstart cs) (cs_sel cs) (mark_done p (cs_cands cs))
+                        <= dsum (cs_s cs) (cs_gstart cs) (cs_sel cs) (cs_cands cs)).
+          { unfold dsum, mark_done. rewrite map_map. apply zsum_map_le. intros e0 He0. unfold dterm.
+            destruct (Nat.eqb (ce_p e0) p) eqn:E; cbn [ce_live ce_done ce_p]; [|lia].
+            apply Nat.eqb_eq in E. assert (e0 = e) by (apply (nodup_pid_eq _ e0 e Hnd He0 Hin); congruence). subst e0.
+            rewrite Hde, Hpe. destruct Hz as [Hz|Hz]; rewrite Hz; rewrite ?andb_false_r; cbn [andb]; lia. }
+          split; lia. }
+      destruct (ce_live e) eqn:Elive; cbn [negb] in Hs.
+      2:{ inversion Hs; subst cs' evs. apply Hnosel. left. reflexivity. }
+      destruct (cs_gstart cs <? p_first (peer_at (cs_s cs) p)) eqn:Erc; cbn [andb] in Hs.
+      { (* the grace re-check: the entry restarted its grace period, leave it alone *)
+        inversion Hs; subst cs' evs. apply Hnosel. right. unfold incl. apply Z.leb_gt. apply Z.ltb_lt. exact Erc. }
+      apply Z.ltb_ge in Erc.
+      destruct (is_nil (p_conns (peer_at (cs_s cs) p)) && p_temp (peer_at (cs_s cs) p)) eqn:Epr;
+        inversion Hs; subst cs' evs; clear Hs.
+      * (* a temporary entry is pruned *)
+        apply andb_true_iff in Epr. destruct Epr as [Enil _].
+        set (s' := set_peer (cs_s cs) p nopeer).
+        assert (Hat : forall q, q <> p -> peer_at s' q = peer_at (cs_s cs) q).
+        { intros q Hq. unfold s'. rewrite peer_at_set_peer. destruct (Nat.eqb p q) eqn:E; [|reflexivity].
+          apply Nat.eqb_eq in E. congruence. }
+        assert (Htp : tracked s' p = false) by (unfold tracked, s'; rewrite peer_at_set_peer, Nat.eqb_refl; reflexivity).
+        apply cinv_update; try exact H; try (intros; discriminate); try reflexivity; try assumption.
+        -- apply inv_set_peer; [exact Hinv|apply nopeer_ok|]. destruct (p_conns (peer_at (cs_s cs) p)); [reflexivity|discriminate].
+        -- rewrite relive_pids, mark_done_pids. exact Hnd.
+        -- intros e' He'. destruct (in_relive _ _ _ He') as [e1 [A ->]]. exact (Hmk e1 A).
+        -- intros q c Hqc. destruct (Hselm q c Hqc) as [e1 [A B]]. exists (relive_e s' e1). split; [|exact B].
+           unfold relive. apply in_map_iff. exists e1. split; [reflexivity|exact A].
+        -- intros todo' tg' E e' He' Hd. inversion E; subst. destruct (in_relive _ _ _ He') as [e1 [A ->]]. exact (Htd e1 A Hd).
+        -- intros b Hb. unfold cbound in Hb. csimpl. inversion Hb as [Hb'].
+           assert (Hterm : forall e0, (ce_p e0 = p -> tracked s' (ce_p e0) = false)
+                     /\ (ce_p e0 <> p -> tracked s' (ce_p e0) = tracked (cs_s cs) (ce_p e0)
+                                        /\ incl s' (cs_gstart cs) (ce_p e0) = incl (cs_s cs) (cs_gstart cs) (ce_p e0)
+                                        /\ conns_of s' (ce_p e0) = conns_of (cs_s cs) (ce_p e0))).
+           { intros e0. split; [intros ->; exact Htp|]. intros Hne. unfold tracked, incl, conns_of. rewrite (Hat _ Hne). auto. }
+           assert (HU' : usum s' (cs_gstart cs) (relive s' (mark_done p (cs_cands cs))) <= usum (cs_s cs) (cs_gstart cs) (cs_cands cs)).
+           { unfold usum, relive, mark_done. rewrite !map_map. apply zsum_map_le. intros e0 _. unfold uterm.
+             destruct (Hterm e0) as [T1 T2]. destruct (Nat.eqb (ce_p e0) p) eqn:E; cbn [ce_live ce_done ce_p].
+             - apply Nat.eqb_eq in E. rewrite (T1 E), andb_false_r. cbn [andb]. destruct (_ && _); [apply zlen_nonneg|lia].
+             - apply Nat.eqb_neq in E. destruct (T2 E) as [A [B C]]. rewrite A, B, C.
+               destruct (ce_live e0), (ce_done e0), (tracked (cs_s cs) (ce_p e0)), (incl (cs_s cs) (cs_gstart cs) (ce_p e0)); cbn; try lia; apply zlen_nonneg. }
+           assert (HD' : dsum s' (cs_gstart cs) (cs_sel cs) (relive s' (mark_done p (cs_cands cs)))
+                         <= dsum (cs_s cs) (cs_gstart cs) (cs_sel cs) (cs_cands cs)).
+           { unfold dsum, relive, mark_done. rewrite !map_map. apply zsum_map_le. intros e0 _. unfold dterm, rem_m.
+             destruct (Hterm e0) as [T1 T2]. destruct (Nat.eqb (ce_p e0) p) eqn:E; cbn [ce_live ce_done ce_p].
+             - apply Nat.eqb_eq in E. rewrite (T1 E), andb_false_r. cbn [andb]. destruct (_ && _); [apply zlen_nonneg|lia].
+             - apply Nat.eqb_neq in E. destruct (T2 E) as [A [B C]]. rewrite A, B, C.
+               destruct (ce_live e0), (ce_done e0), (tracked (cs_s cs) (ce_p e0)), (incl (cs_s cs) (cs_gstart cs) (ce_p e0)); cbn; try lia; apply zlen_nonneg. }
+           split; lia.
+        -- intros q c e' Hqc He' Hq Hl. destruct (in_relive _ _ _ He') as [e1 [A ->]]. cbn [relive_e ce_p ce_live] in Hq, Hl.
+           apply andb_true_iff in Hl. destruct Hl as [Hl Ht1].
+           assert (Hqp : q <> p) by (intros ->; rewrite Hq, Htp in Ht1; discriminate).
+           rewrite (Hat q Hqp). exact (Hselfm q c e1 Hqc A Hq Hl).
+        -- intros e' He' Hl. destruct (in_relive _ _ _ He') as [e1 [_ ->]]. cbn [relive_e ce_p ce_live] in *.
+           apply andb_true_iff in Hl. exact (proj2 Hl).
+      * (* its live connections are selected: the peer is tracked, not temp, out of grace *)
+        assert (Hntmp : p_conns (peer_at (cs_s cs) p) <> [] -> p_temp (peer_at (cs_s cs) p) = false).
+        { intros Hne. pose proof (Hlive e Hin Elive) as Ht. rewrite Hpe in Ht.
+          destruct (peer_at_ok _ p Hinv) as [_ [_ Htm]]. rewrite (Htm Ht). destruct (p_conns (peer_at (cs_s cs) p)); [congruence|reflexivity]. }
+        apply cinv_update; try exact H; try (intros; discriminate); try reflexivity; try assumption.
+        -- rewrite mark_done_pids. exact Hnd.
+        -- intros q c Hqc. apply in_app_or in Hqc. destruct Hqc as [Hqc|Hqc]; [exact (Hselm q c Hqc)|].
+           apply in_map_iff in Hqc. destruct Hqc as [c' [E _]]. inversion E; subst. exists (mark_e (ce_p e) e). split.
+           ++ unfold mark_done. apply in_map_iff. exists e. split; [reflexivity|exact Hin].
+           ++ apply (proj1 (mark_e_fields (ce_p e) e)).
+        -- intros todo' tg' E e' He' Hd. inversion E; subst. exact (Htd e' He' Hd).
+        -- intros b Hb. unfold cbound in Hb. csimpl. inversion Hb as [Hb'].
+           pose proof (usum_mark_done (cs_s cs) (cs_gstart cs) p (cs_cands cs) e Hin Hpe) as HU'.
+           assert (Hut : uterm (cs_s cs) (cs_gstart cs) e = zlen (p_conns (peer_at (cs_s cs) p))).
+           { unfold uterm, incl. rewrite Elive, Hde, Hpe. cbn [andb negb].
+             replace (p_first (peer_at (cs_s cs) p) <=? cs_gstart cs) with true by (symmetry; apply Z.leb_le; exact Erc). reflexivity. }
+           assert (HD' : dsum (cs_s cs) (cs_gstart cs) (cs_sel cs ++ map (pair p) (p_conns (peer_at (cs_s cs) p)))
+                              (mark_done p (cs_cands cs)) <= dsum (cs_s cs) (cs_gstart cs) (cs_sel cs) (cs_cands cs)).
+           { unfold dsum, mark_done. rewrite map_map. apply zsum_map_le. intros e0 _. unfold dterm.
+             destruct (Nat.eqb (ce_p e0) p) eqn:E; cbn [ce_live ce_done ce_p].
+             - apply Nat.eqb_eq in E. rewrite E. fold (conns_of (cs_s cs) p). rewrite rem_m_self.
+               destruct (ce_live e0 && true && incl (cs_s cs) (cs_gstart cs) p);
+                 destruct (ce_live e0 && ce_done e0 && incl (cs_s cs) (cs_gstart cs) p); try lia; unfold rem_m; apply zlen_nonneg.
+             - destruct (ce_live e0 && ce_done e0 && incl _ _ _); [|lia]. apply rem_m_mono. intros x Hx. apply in_or_app. left. exact Hx. }
+           split; lia.
+        -- intros q c e' Hqc He' Hq Hl. apply in_app_or in Hqc. destruct Hqc as [Hqc|Hqc]; [exact (Hselfm q c e' Hqc He' Hq Hl)|].
+           apply in_map_iff in Hqc. destruct Hqc as [c' [E Hc']]. injection E as Eq Ec. rewrite <- Eq. split; [|exact Erc].
+           apply Hntmp. intros Hn. rewrite Hn in Hc'. destruct Hc'.
+    Unshelve. all: auto.
 Qed.
 
 (* ---- every step, every schedule ------------------------------------------------------------------- *)
@@ -470,8 +543,25 @@ Qed.
 
 (* what is left on the live candidates when the trim closes its selection *)
 Lemma phi_at_close : forall cfg cs, CInv cfg cs -> cs_ph cs = TClose ->
-  phi (cs_s cs) (cs_sel cs) (cs_cands cs) <= c_low cfg + cs_added1 cs + cs_added2 cs.
+  phi (cs_s cs) (cs_gstart cs) (cs_sel cs) (cs_cands cs) <= c_low cfg + cs_added1 cs + cs_added2 cs.
 Proof.
   intros cfg cs H Eph. destruct (ci_c _ _ H (c_low cfg)) as [HD HU]; [unfold cbound; rewrite Eph; reflexivity|].
-  pose proof (phi_le (cs_s cs) (cs_sel cs) (cs_cands cs)). lia.
+  pose proof (phi_le (cs_s cs) (cs_gstart cs) (cs_sel cs) (cs_cands cs)). lia.
+Qed.
+
+(* (b) at full strength, at the very step: whatever the state, an iteration of
+   the (repaired) selection loop selects connections only of a peer whose
+   firstSeen - read now, under the segment lock - is not after gracePeriodStart *)
+Lemma select_step_rechecks : forall cfg cs cs' evs, cstep cfg cs ASelect = Some (cs', evs) ->
+  forall x, In x (cs_sel cs') -> In x (cs_sel cs) \/ p_first (peer_at (cs_s cs) (fst x)) <= cs_gstart cs.
+Proof.
+  intros cfg cs cs' evs Hs x Hx. cbn [cstep] in Hs. unfold select_step in Hs.
+  destruct (cs_ph cs) as [| | |todo tg|]; try discriminate. destruct todo as [|p r]; [inversion Hs; subst; left; exact Hx|].
+  destruct (tg <=? 0); [inversion Hs; subst; left; exact Hx|].
+  destruct (find _ (cs_cands cs)) as [e|]; [|inversion Hs; subst; left; exact Hx].
+  destruct (negb (ce_live e)); [inversion Hs; subst; left; exact Hx|].
+  destruct (cs_gstart cs <? p_first (peer_at (cs_s cs) p)) eqn:E; cbn [andb] in Hs; [inversion Hs; subst; left; exact Hx|].
+  destruct (_ && _); inversion Hs; subst; cbn [cs_sel] in Hx; [left; exact Hx|].
+  apply in_app_or in Hx. destruct Hx as [Hx|Hx]; [left; exact Hx|]. right.
+  apply in_map_iff in Hx. destruct Hx as [c [<- _]]. cbn [fst]. apply Z.ltb_ge. exact E.
 Qed.
